@@ -423,6 +423,7 @@ static int SplitForceSize(char const* pArg, tForceSize* pForceSize) {
 
 static ShortInt DecodeAdr(tStrComp const* pArg, Word Mask, tAdrResult* pResult) {
     LongInt        HDisp, DispAcc;
+    LargeInt       IdxDisp, IdxAcc;
     Boolean        OK, NegFlag, NNegFlag, IdxOK;
     Byte           HReg;
     int            Offs;
@@ -521,7 +522,7 @@ static ShortInt DecodeAdr(tStrComp const* pArg, Word Mask, tAdrResult* pResult) 
             char*    pSplitPos;
 
             NNegFlag = NegFlag = False;
-            DispAcc            = 0;
+            IdxAcc             = 0;
             IdxOK              = True;
             pResult->Mode      = 0xff;
             do {
@@ -541,10 +542,13 @@ static ShortInt DecodeAdr(tStrComp const* pArg, Word Mask, tAdrResult* pResult) 
                         pResult->Mode = HReg;
                     }
                 } else {
-                    HDisp = EvalStrIntExpressionOffs(
+                    /* sum up in full width: a 32-bit accumulator silently
+                       folds e.g. 0ffff8000h to -32768 */
+
+                    IdxDisp = EvalStrIntExpressionOffs(
                             &Arg, !!(*Arg.str.p_str == '#'), Int32, &OK);
                     if (OK) {
-                        DispAcc = NegFlag ? DispAcc - HDisp : DispAcc + HDisp;
+                        IdxAcc = NegFlag ? IdxAcc - IdxDisp : IdxAcc + IdxDisp;
                     } else {
                         IdxOK = False;
                     }
@@ -554,15 +558,16 @@ static ShortInt DecodeAdr(tStrComp const* pArg, Word Mask, tAdrResult* pResult) 
                     Arg     = Remainder;
                 }
             } while (pSplitPos);
+            DispAcc = (LongInt)IdxAcc;
             if (!IdxOK) {
                 /* displacement did not evaluate: error already reported, no code */
             } else if (pResult->Mode == 0xff) {
                 DecideAbsolute(DispAcc, Mask, pResult);
-            } else if (DispAcc == 0) {
+            } else if (IdxAcc == 0) {
                 pResult->Type = ModIReg;
-            } else if (DispAcc > 0xffff) {
+            } else if (IdxAcc > 0xffff) {
                 WrError(ErrNum_OverRange);
-            } else if (DispAcc < -0x8000l) {
+            } else if (IdxAcc < -0x8000l) {
                 WrError(ErrNum_UnderRange);
             } else {
                 pResult->Vals[0] = Lo(DispAcc);
